@@ -1,6 +1,7 @@
 package main
 
 import (
+	"sort"
 	"fmt"
 	"go/constant"
 	"go/types"
@@ -21,6 +22,9 @@ type CEnv struct {
 	pkg   *ssa.Package
 	bound map[string]*Term
 	inOld bool
+	// skip (when non-nil: the clause is being ASSUMED at a call site): set when the clause cannot be evaluated there for
+	// want of the dynamic type of an interface value - the caller then leaves the clause out (weaker assumption, sound)
+	skip *bool
 }
 
 func (e *CEnv) state() *State {
@@ -31,6 +35,9 @@ func (e *CEnv) state() *State {
 }
 
 func (ex *Exec) cerr(f string, a ...interface{}) {
+	if ex.curSkip != nil && *ex.curSkip {
+		return // the clause being assumed has already been found unusable at this call site and is left out
+	}
 	msg := "CONTRACT-STALE: " + fmt.Sprintf(f, a...) + " [while verifying " + shortKey(ex.curKey) + "]"
 	for _, e := range ex.errs {
 		if e == msg {
@@ -388,6 +395,11 @@ func (ex *Exec) evalIdent(name string, env *CEnv, want string) TV {
 			return ex.evalPkgMember(p, name, env, want)
 		}
 	}
+	if env.skip != nil {
+		// a clause assumed at a call site that names a local of the callee: not usable there
+		*env.skip = true
+		return TV{V: ex.freshTerm("skipped", SBool, false)}
+	}
 	ex.cerr("unresolved identifier %q", name)
 	if want == "" {
 		want = SBool
@@ -459,12 +471,64 @@ func (ex *Exec) evalField(base TV, sel string, env *CEnv, e Expr) TV {
 					}
 				}
 			}
+			// an interface of /repo with exactly ONE implementation (in its own package) that has such a field: the
+			// clause speaks about that implementation (for a value of another dynamic type it constrains nothing that
+			// is ever read: the heap is indexed by type and field)
+			if n, ok := t.(*types.Named); ok && x.Sym != nil && x.Sym.Sort == SRef && n.Obj().Pkg() != nil {
+				if impl := ex.uniqueImplWithField(n, sel); impl != nil {
+					v = &Ptr{Ref: x.Sym, Root: impl}
+					t = types.NewPointer(impl)
+					continue
+				}
+			}
+			if env.skip != nil {
+				*env.skip = true
+				return TV{V: ex.freshTerm("skipped", SBool, false)}
+			}
 		}
 		break
 	}
 	_ = t
 	ex.cerr("cannot select %s in %s", sel, e.String())
 	return TV{V: ex.freshTerm("bad", SBool, false)}
+}
+
+func (ex *Exec) uniqueImplWithField(n *types.Named, sel string) types.Type {
+	iface, ok := n.Underlying().(*types.Interface)
+	if !ok {
+		return nil
+	}
+	p := ex.prog.ImportedPackage(n.Obj().Pkg().Path())
+	if p == nil {
+		return nil
+	}
+	var found types.Type
+	for _, name := range sortedMemberNames(p) {
+		tm, ok := p.Members[name].(*ssa.Type)
+		if !ok || structOf(tm.Type()) == nil {
+			continue
+		}
+		if !types.Implements(types.NewPointer(tm.Type()), iface) && !types.Implements(tm.Type(), iface) {
+			continue
+		}
+		if path, _ := findField(tm.Type(), sel); path == nil {
+			continue
+		}
+		if found != nil {
+			return nil
+		}
+		found = tm.Type()
+	}
+	return found
+}
+
+func sortedMemberNames(p *ssa.Package) []string {
+	var names []string
+	for n := range p.Members {
+		names = append(names, n)
+	}
+	sort.Strings(names)
+	return names
 }
 
 func findField(t types.Type, name string) ([]int, types.Type) {
